@@ -85,11 +85,14 @@ def run(case, ctx):
     # (b) everything in one call, with recording apply functions
     calls = []
 
-    def recorder(vals):
-        calls.append(list(vals))
-        return repr(list(vals))
+    def recorder(entry):
+        # one function per apply entry (each stamps its own name on what it returns)
+        def record(vals):
+            calls.append(list(vals))
+            return repr((entry, list(vals)))
+        return record
 
-    over_arg, kw = R.group_call_args(case, over, vspecs, recorder)
+    over_arg, kw = R.group_call_args(case, over, vspecs, recorder, per_name=True)
     ctx.ev()
     lists_before = [(nm_, arg_, list(arg_)) for nm_, arg_ in [("over", over_arg)] + list(kw.items()) if isinstance(arg_, list)]
     res = t.aggregate(over=over_arg, **kw)
@@ -107,14 +110,14 @@ def run(case, ctx):
         vals = case["vals"][j]["values"]
         per_group = [[vals[i] for i in g[1]] for g in groups]
         want_calls += per_group
-        want_cols.append(([repr(v) for v in per_group], 0.0))
+        want_cols.append(([repr((name, v)) for v in per_group], 0.0))
     if len(out_cols) != len(want_cols):
         return ctx.fail("combined/column-count", f"{len(out_cols)} aggregate columns, expected {len(want_cols)}")
     unused = list(range(len(out_cols)))
     for w, tol in want_cols:
         hit = next((u for u in unused if _col_matches(out_cols[u], w, [tol] * len(w))), None)
         if hit is None:
-            is_apply = bool(w) and isinstance(w[0], str) and w[0].startswith("[")
+            is_apply = bool(w) and isinstance(w[0], str) and w[0].startswith("(")
             return ctx.fail(f"combined/{'apply' if is_apply else 'aggregate'}-column-wrong",
                             f"no output column equals expected {w}; outputs {out_cols}")
         unused.remove(hit)
